@@ -101,6 +101,8 @@ def c20(tier: str) -> int:
         ver = rng.choice(VERSIONS)
         res = docs.random_resource(rng, ver, adversarial=rng.random() < 0.7,
                                    extension=rng.random() < 0.45)
+        if len(res['lexicons']) > 1 and rng.random() < 0.4:
+            rng.shuffle(res['lexicons'])       # scan and load must agree on the order, whatever it is
         cases.append({'id': k + 1, 'res': res, 'seed': rng.randrange(10 ** 9), 'per_kind': 3 if thorough else 2})
     recs = run_cases('mutants', cases)
     jd = tlc_judge('Judge_C20', recs, cfg='Judge.cfg', shards=NCPU)
